@@ -1397,7 +1397,7 @@ func main() {
 		Bounds: map[string]any{
 			"programs": len(corpus), "programs_per_family": families, "programs_in_order_scenarios": nOrder,
 			"lattice_points": len(lattice), "listener_values": []string{"no factory", "listener for every function (host functions included)", "nil for every function", "every other function"}, "cache_modes": cacheModes, "toggles": []string{"capmax", "alloc", "nodebug", "custom", "listener", "cod"},
-			"semantic_bases":           []string{fmt.Sprintf("WithMemoryLimitPages(%d): all programs", smallLimit), "default limit (65536): programs with a memory"},
+			"semantic_bases":           []string{fmt.Sprintf("WithMemoryLimitPages(%d): all programs", smallLimit), "default limit (65536): programs with a memory", "experimental.CoreFeaturesTailCall in every runtime of the programs of family tailcall"},
 			"order_settings":           map[string]string{"D": "default", "T": "WithCloseOnContextDone(true)", "L": "function listener", "N": "WithDebugInfoEnabled(false)", "M": "WithMemoryLimitPages(2)", "F": "WithCoreFeatures(V1)", "C": "WithMemoryCapacityFromMax(true)", "A": "custom MemoryAllocator"},
 			"order_tuples":             len(tuples()),
 			"order_scenarios_per_case": map[string]int{"quick": len(enumScenarios("mem", 0)), "thorough": len(enumScenarios("mem", 1)), "thorough_order_flagged_programs": len(enumScenarios("mem", 2))},
